@@ -85,3 +85,16 @@ MANIFEST = dict(
               "permutation) + model/implementation correspondence on random multi-epoch histories (extracted OCaml vs Go singleton)",
     design_ref="DESIGN.md §4 C23",
 )
+
+import re as _re
+
+
+def ignore(m):
+    """Which error code a REJECTED block reports is not fixed by the property ('... is rejected'): a block that violates several
+    rules may report any of them (neutral/C23/round2_O runs the attempt check before the window check and folds order/duplicate
+    checks into one pass). A difference is ignored iff the two transcripts are equal after replacing every rejection token R<code>
+    by R: same accept/reject decision on every block, same accumulator and sealer sequence after every block."""
+    canon = lambda t: _re.sub(r"(?<![0-9A-Za-z])R[0-9]+(?![0-9A-Za-z])", "R", t)
+    if m["impl"] != m["model"] and canon(m["impl"]) == canon(m["model"]):
+        return "only the error code of a rejected block differs (the property fixes 'rejected', not the code)"
+    return None
